@@ -81,6 +81,7 @@ def cases(tier, seed):
                 for cls in ("vac", "multi"):
                     yield {"k": "multi", "cls": cls, "ndof": ndof, "op": "hop", "i": i, "j": j}
                     yield {"k": "multi", "cls": cls, "ndof": ndof, "op": "hop-rev", "i": i, "j": j}
+    yield {"k": "multi-identity"}
     yield {"k": "simple-electron"}
     for nbas in (1, 2, 4):
         yield {"k": "hops", "nbas": nbas}
@@ -309,6 +310,37 @@ def run_pauli(desc):
         if not ok:
             viol.append({"sig": f"C16:pauli:{k}", "msg": f"Pauli relation {k} violated"})
     return {"nontrivial": True, "outcome": "pauli", "viol": viol}
+
+
+def run_multi_identity(desc):
+    """the identity spelled over one, two or all dofs of a multi-electron site, with a prefactor"""
+    from renormalizer.model import Op, basis as ba
+    viol = []
+    for cls in ("plain", "vac"):
+        for ndof in (2, 3):
+            dofs = [f"e{i}" for i in range(ndof)]
+            b = ba.BasisMultiElectron(dofs, [1] * ndof) if cls == "plain" else ba.BasisMultiElectronVac(dofs)
+            for k in range(1, ndof + 1):
+                for fac in (1.0, 0.5, -2.0, 0.3 + 0.4j):
+                    for how, op in (("Op('I ...')", Op(" ".join(["I"] * k), dofs[:k], fac)), ("Op.identity * c", Op.identity(dofs[:k]) * fac)):
+                        try:
+                            got = np.asarray(b.op_mat(op))
+                        except ValueError as e:
+                            if "not supported" in str(e):
+                                continue      # explicit refusal (the plain class accepts identities over at most two dofs)
+                            viol.append({"sig": "C16:multi:identity:exception:ValueError", "msg": f"{cls} ndof={ndof}: op_mat({op!r}) raised {e!r}"})
+                            continue
+                        except Exception as e:
+                            viol.append({"sig": f"C16:multi:identity:exception:{type(e).__name__}", "msg": f"{cls} ndof={ndof}: op_mat({op!r}) raised {e!r}"})
+                            continue
+                        if got.shape != (b.nbas, b.nbas) or not np.allclose(got, fac * np.eye(b.nbas)):
+                            viol.append({"sig": f"C16:multi:identity-with-prefactor:{cls}", "msg": f"{cls} ndof={ndof}: op_mat of {how} over {k} dofs with factor {fac} is not {fac} x identity (diagonal {np.diag(got)[:2]})"})
+    seen, out = set(), []
+    for v in viol:
+        if v["sig"] not in seen:
+            seen.add(v["sig"])
+            out.append(v)
+    return {"nontrivial": True, "outcome": "multi-identity", "viol": out, "sample": {"desc": desc}}
 
 
 def run_multi(desc):
@@ -663,6 +695,8 @@ def run_case(desc, seed):
         return run_spin(desc)
     if k == "pauli":
         return run_pauli(desc)
+    if k == "multi-identity":
+        return run_multi_identity(desc)
     if k == "multi":
         return run_multi(desc)
     if k == "simple-electron":
